@@ -16,6 +16,7 @@ package circuitbreaker
 import (
 	"context"
 	"errors"
+	"sync"
 	"sync/atomic"
 	"time"
 
@@ -35,6 +36,7 @@ type CircuitBreaker struct {
 	threshold    uint64
 	recoverTime  time.Duration
 	mockService  MockService
+	mu           sync.Mutex
 }
 
 // Option for CircuitBreaker.
@@ -90,13 +92,18 @@ func (cb *CircuitBreaker) MockService() MockService {
 
 // IOHandler for CircuitBreaker.
 func (cb *CircuitBreaker) IOHandler(ctx context.Context, request []byte, next core.NextIOHandler) (response []byte, err error) {
+	// the count and the time of the last failure are one state: the decision below reads both
+	// and may replace the count, so it and the two updates further down exclude each other.
+	cb.mu.Lock()
 	if atomic.LoadUint64(&cb.failCount) > cb.threshold {
 		interval := time.Duration(time.Now().UnixNano() - atomic.LoadInt64(&cb.lastFailTime))
 		if interval < cb.recoverTime {
+			cb.mu.Unlock()
 			return nil, ErrBreaker
 		}
 		atomic.StoreUint64(&cb.failCount, cb.threshold>>1)
 	}
+	cb.mu.Unlock()
 	panicking := true // panic(nil) makes recover return nil: only this tells it from a return
 	defer func() {
 		if e := recover(); e != nil {
@@ -108,15 +115,19 @@ func (cb *CircuitBreaker) IOHandler(ctx context.Context, request []byte, next co
 			// the time of this failure must be visible before the count that opens the
 			// breaker: a concurrent call that sees the count with an older time would
 			// take the recovery time for elapsed and forward.
+			cb.mu.Lock()
 			atomic.StoreInt64(&cb.lastFailTime, time.Now().UnixNano())
 			atomic.AddUint64(&cb.failCount, 1)
 			atomic.StoreInt64(&cb.lastFailTime, time.Now().UnixNano())
+			cb.mu.Unlock()
 		}
 	}()
 	response, err = next(ctx, request)
 	panicking = false
 	if err == nil {
+		cb.mu.Lock()
 		atomic.StoreUint64(&cb.failCount, 0)
+		cb.mu.Unlock()
 	}
 	return
 }
